@@ -200,18 +200,33 @@ func (s *Solver) instancesFrom(from int, sks []*Term) []*Term {
 				}
 			}
 			// frame facts quantified over cells (pattern: select of the bound
-			// variable itself) are for the solver's own matching
+			// variable itself) are instantiated at reference-valued skolem constants
+			// only (the x / y / W binders of frame goals), everything else at the
+			// integer candidates only
+			cellFact := false
 			for _, p := range t.Pats {
 				for _, x := range p {
 					if x.Op == "select" && len(x.Args) == 2 && len(t.Bind) == 1 && x.Args[1] == t.Bind[0] {
-						return nil
+						cellFact = true
 					}
 				}
+			}
+			if cellFact {
+				var r []*Term
+				for _, k := range sks {
+					if refSkolem(k) {
+						r = append(r, Subst(t.Args[0], map[*Term]*Term{t.Bind[0]: k}))
+					}
+				}
+				return r
 			}
 			var r []*Term
 			switch len(t.Bind) {
 			case 1:
 				for _, k := range sks {
+					if refSkolem(k) {
+						continue
+					}
 					r = append(r, Subst(t.Args[0], map[*Term]*Term{t.Bind[0]: k}))
 				}
 			case 2:
@@ -515,4 +530,11 @@ func (s *Solver) Eval(t *Term) string {
 		sb.WriteString(l)
 	}
 	return sb.String()
+}
+
+// refSkolem: a skolem constant that stands for a memory cell (binder x, y or W
+// of an engine-generated frame goal or of forallref), not for an index
+func refSkolem(t *Term) bool {
+	n := strings.Trim(t.Op, "|")
+	return strings.HasPrefix(n, "sk.q.x!") || strings.HasPrefix(n, "sk.q.y!") || strings.HasPrefix(n, "sk.q.W!")
 }
